@@ -12,6 +12,8 @@ R09.5 (tables + CFG) defining origin: add_origin forwards the header id as FILE-
       the header id before anything is written; FILE-SET-NUMBER is assigned on every path of the origin's set-up; the
       defining origin is the first object of the logical file's own origin sets.
 R09.6 (effects) the header / origin / set writers keep no memo of encoded bytes.
+R09.7 (= C07 R07.3) what an indirectly formatted record refers to is an object of the same logical file (hence one of the
+      sets written before the data): the write path checks membership for every reference, no-format objects included.
 """
 
 from __future__ import annotations
@@ -44,6 +46,18 @@ def run(chk):
     chk.guard(r09_4_header, chk)
     chk.guard(r09_5_origin, chk)
     chk.guard(r09_6_no_memo, chk)
+    chk.guard(r09_7_referenced_objects_are_in_the_file, chk)
+
+
+def r09_7_referenced_objects_are_in_the_file(chk):
+    """A frame / channel / no-format object can only precede the records that refer to it if it is in the logical file
+    at all: the generic membership check of C07 R07.3 (every reference-typed attribute and the object of every no-format
+    record is required, on the write path, to be registered in the same logical file)."""
+    from . import c07
+    n0 = len(chk.obs)
+    c07.r07_3_references(chk)
+    for o in chk.obs[n0:]:
+        o.rule = "R09.7"
 
 
 def r09_1_order(chk):
